@@ -19,21 +19,22 @@ SPEC = dict(
                  'inside onAccepted/onConnected the new client is disposed of by returning a null callback (optionally after remove()), never by remove() plus a non-null callback',
                  'a peer that closes while its client is suspended without backlog is not generated (the loop then spins on EPOLLHUP; no statement of C14 is violated by that)',
                  'loopback TCP delivery is asynchronous: the harness waits (bounded, real time) until its own poll() sees in-flight traffic before judging the loop; exceeding the bound is inconclusive, never a violation',
+                 'readiness verdict: fd ready per independent poll() while the loop blocks is a violation only if the needed event bits are missing from the epoll registration observed at the epoll_ctl boundary; with the registration in place the kernel wake-up is considered in flight and re-polled',
                  'threaded job: "run() returns after interrupt()" is awaited for 30 s real time; exceeding it is reported as inconclusive (the deterministic no-wakeup check is in the virtual-time job)'],
     technique='libc interposition (virtual clock, scripted epoll_wait/send/recv), alive-flag tombstones, independent poll() oracle, TSan',
     exhaustive={Q: False, T: False},
     jobs=[
-        job('world', 'h_server_loop', 'world', cases={Q: 2000, T: 40000}, procs=16, sources=SRC),
+        job('world', 'h_server_loop', 'world', cases={Q: 4000, T: 160000}, procs=16, sources=SRC),
         job('equal-due', 'h_server_loop', 'equal-due', cases=-1, scale={Q: 8, T: 12}, procs=16, sources=SRC),
-        job('threads-plain', 'h_server_loop', 'threads', variant='plain', cases={Q: 100, T: 2500}, procs=8, weight=2, sources=SRC, timeout=600),
-        job('threads-tsan', 'h_server_loop', 'threads', variant='tsan', cases={Q: 100, T: 2500}, procs=8, weight=2, sources=SRC, timeout=600),
+        job('threads-plain', 'h_server_loop', 'threads', variant='plain', cases={Q: 200, T: 5000}, procs=8, weight=2, sources=SRC, timeout=600),
+        job('threads-tsan', 'h_server_loop', 'threads', variant='tsan', cases={Q: 200, T: 5000}, procs=8, weight=2, sources=SRC, timeout=600),
     ],
-    floors={Q: dict(cases=2500, callbacks=50000, timer_activations=20000, timers_removed=2000, timers_removed_from_equal_run_of_3plus=300, clients_removed=1000,
+    floors={Q: dict(cases=4800, callbacks=100000, timer_activations=40000, timers_removed=4000, timers_removed_from_equal_run_of_3plus=600, clients_removed=2000,
                     removed_with_selected_event=100, onAccepted=200, onConnected=100, onAbolished=50, independent_poll_checks=20000, timer_due_checks=20000,
-                    eintr_injected=100, oversleep_injected=200, run_returns=2000, threaded_interrupt_calls=2000, threaded_run_returns=1000,
+                    eintr_injected=100, oversleep_injected=200, run_returns=4000, threaded_interrupt_calls=4000, threaded_run_returns=2000,
                     **{'set:removal_classes': 20, 'set:interrupt_venues': 7}),
-            T: dict(cases=45000, callbacks=1000000, timer_activations=400000, timers_removed=40000, timers_removed_from_equal_run_of_3plus=6000, clients_removed=20000,
-                    removed_with_selected_event=2000, onAccepted=4000, onConnected=2000, onAbolished=1000, independent_poll_checks=400000, timer_due_checks=400000,
-                    eintr_injected=2000, oversleep_injected=4000, run_returns=40000, threaded_interrupt_calls=50000, threaded_run_returns=25000,
+            T: dict(cases=170000, callbacks=4000000, timer_activations=1600000, timers_removed=160000, timers_removed_from_equal_run_of_3plus=24000, clients_removed=80000,
+                    removed_with_selected_event=8000, onAccepted=16000, onConnected=8000, onAbolished=4000, independent_poll_checks=1600000, timer_due_checks=1600000,
+                    eintr_injected=8000, oversleep_injected=16000, run_returns=160000, threaded_interrupt_calls=100000, threaded_run_returns=50000,
                     **{'set:removal_classes': 20, 'set:interrupt_venues': 7})},
 )
